@@ -403,6 +403,7 @@ func c05(r *core.Run) {
 	r.Rule("E3", "verbatim error replies: in every error-reply funnel (a function taking an *Error and handing a payload to the reply path) each payload is the json.Marshal output of a value holding that very *Error, or - only on the marshal-failure edge - a static literal; a static literal chosen by the error's code would replace a custom message or data with the generic text", 2)
 	r.Rule("E2", "static outcomes: no-resource and get-without-handler reply with the notFound literal, unknown call/auth method with the methodNotFound literal, a handler that returned without replying reaches the fallback that replies with an internalError literal; literals carry the matching Code* constant", 6)
 
+	r.Rule("M9", "the pattern selected is one that has a handler (shared with C06.R12): every exact-match accept site of the matcher lies behind the non-nil test of the node's handler - a handler-less node on the way to a longer pattern never ends the backtracking, so the less specific pattern that does match still gets the request", 1)
 	r.Rule("M8", "the handler gets the payload that arrived (shared with C07.P10 / C18.V11): no function appends onto a truncated prefix of a slice it was handed - a trace helper shortening a large request payload that way overwrites the message's bytes before they are parsed, so a large request is answered with an error (or decoded params differ) instead of reaching its handler with what the client sent", 1)
 	c07NoAppendIntoForeignPrefix(r, "M8", []string{"", "resprot"})
 	root := p.FuncsOfPkg("")
@@ -415,6 +416,7 @@ func c05(r *core.Run) {
 		c06Specificity(r, "M4", ro)
 		c06PrefixBoundary(r, "M5")
 		c06MatchAssembly(r, "M3", root, ro)
+		c06AcceptHasHandler(r, "M9", root, ro)
 	}
 	c06PureLookup(r, "M4")
 	models := c04Models(r, "M1")
@@ -1359,8 +1361,12 @@ func c05Verbatim(r *core.Run, root []*ssa.Function) {
 					}
 					// the payload comes out of a private helper ("marshal or fall back"): judge the helper's
 					// returns with its parameters bound to this call
-					if hc, ok := core.Strip(s.v).(*ssa.Call); ok {
-						if cal := hc.Common().StaticCallee(); cal != nil && cal.Pkg == fn.Pkg && len(cal.Blocks) > 0 && cal.Signature.Results().Len() == 1 {
+					hv := core.Strip(s.v)
+					if ex, ok := hv.(*ssa.Extract); ok && ex.Index == 0 {
+						hv = ex.Tuple // payload, err := encode(...)
+					}
+					if hc, ok := hv.(*ssa.Call); ok {
+						if cal := hc.Common().StaticCallee(); cal != nil && cal.Pkg == fn.Pkg && len(cal.Blocks) > 0 && (cal.Signature.Results().Len() == 1 || (cal.Signature.Results().Len() == 2 && types.TypeString(cal.Signature.Results().At(1).Type(), nil) == "error")) && cal.String() != "encoding/json.Marshal" {
 							rs := core.NewResolver()
 							rs.Bind(hc)
 							var hm []*ssa.Call
